@@ -1,8 +1,6 @@
-import Driver.Slurm
+import Driver.All
 
 open Lean Jade.Driver
-
-def allOps : List (String × (Json → R Json)) := slurmOps
 
 def handle (line : String) : String :=
   match Json.parse line with
